@@ -21,6 +21,9 @@ impl<'a> ResourceRecordManager<'a> {
         let key = get_key(&resource.name);
         match self.resources.get_mut(&key) {
             Some(resources) => {
+                // `insert` keeps the key of an equal entry: drop a copy learned from the network
+                // first, the ttl and cache flush bit served are the registered ones
+                resources.remove(&resource);
                 resources.insert(resource, ResourceRecordType::Authoritative);
             }
             None => {
